@@ -261,6 +261,7 @@ type Case struct {
 	Tier    int             `json:"tier"`
 	Repeat  int             `json:"repeat"`
 	Lenient bool            `json:"lenient"`
+	Race    bool            `json:"-"` // run under the Go race detector (separate binary)
 }
 
 type NativeResult struct {
@@ -274,6 +275,52 @@ type NativeResult struct {
 	} `json:"observes"`
 	Covers  []string `json:"covers"`
 	Assumed bool     `json:"assume_failed"`
+	Race    string   `json:"-"` // first lines of Go's race report, if any
+}
+
+// raceReportFor returns the first data-race report of Go's race detector that
+// has a frame in the function named by the executor's label
+// ("data-race/map/(controller/common.InformerMap).Get"), or "".
+func raceReportFor(out, label string) string {
+	fn := label[strings.LastIndex(label, "/")+1:]
+	var toks []string
+	cur := ""
+	for _, c := range fn {
+		if c == '_' || c >= '0' && c <= '9' || c >= 'a' && c <= 'z' || c >= 'A' && c <= 'Z' {
+			cur += string(c)
+		} else if cur != "" {
+			toks = append(toks, cur)
+			cur = ""
+		}
+	}
+	if cur != "" {
+		toks = append(toks, cur)
+	}
+	if len(toks) == 0 {
+		return ""
+	}
+	name := toks[len(toks)-1] + "()"
+	typ := ""
+	if len(toks) >= 2 {
+		typ = toks[len(toks)-2]
+	}
+	for _, rep := range strings.Split(out, "WARNING: DATA RACE")[1:] {
+		if i := strings.Index(rep, "=================="); i >= 0 {
+			rep = rep[:i]
+		}
+		if strings.Contains(rep, name) && strings.Contains(rep, typ) {
+			return "WARNING: DATA RACE" + rep
+		}
+	}
+	return ""
+}
+
+func firstLines(s string, n int) string {
+	l := strings.Split(s, "\n")
+	if len(l) > n {
+		l = l[:n]
+	}
+	return strings.Join(l, "\n")
 }
 
 func relPkgDir(pkgPath string) string {
@@ -281,6 +328,49 @@ func relPkgDir(pkgPath string) string {
 }
 
 func nativeRun(pkgPath, pkgName string, funcs []string, cases []Case) ([]NativeResult, string, error) {
+	// cases of kind "race" are replayed by a second binary built with -race,
+	// one process per attempt
+	var plain, racy []Case
+	var isRacy []bool
+	for _, c := range cases {
+		isRacy = append(isRacy, c.Race)
+		if c.Race {
+			racy = append(racy, c)
+		} else {
+			plain = append(plain, c)
+		}
+	}
+	if len(racy) == 0 {
+		return nativeRun1(pkgPath, pkgName, funcs, cases, false)
+	}
+	var pres, rres []NativeResult
+	var out string
+	if len(plain) > 0 {
+		var err error
+		pres, out, err = nativeRun1(pkgPath, pkgName, funcs, plain, false)
+		if err != nil {
+			return nil, out, err
+		}
+	}
+	rres, out2, err := nativeRun1(pkgPath, pkgName, funcs, racy, true)
+	if err != nil {
+		return nil, out + out2, err
+	}
+	var res []NativeResult
+	pi, ri := 0, 0
+	for _, r := range isRacy {
+		if r {
+			res = append(res, rres[ri])
+			ri++
+		} else {
+			res = append(res, pres[pi])
+			pi++
+		}
+	}
+	return res, out + out2, nil
+}
+
+func nativeRun1(pkgPath, pkgName string, funcs []string, cases []Case, race bool) ([]NativeResult, string, error) {
 	tmp, err := os.MkdirTemp("", "verif.native.")
 	if err != nil {
 		return nil, "", err
@@ -312,7 +402,11 @@ func nativeRun(pkgPath, pkgName string, funcs []string, cases []Case) ([]NativeR
 	// build the test binary once, then run it (whole batch first; if the process
 	// dies - e.g. a panic inside a real goroutine cannot be recovered - case by case)
 	bin := filepath.Join(tmp, "replay.test")
-	build := exec.Command("go", "test", "-c", "-vet=off", "-overlay", ovFile, "-o", bin, relPkgDir(pkgPath))
+	buildArgs := []string{"test", "-c", "-vet=off", "-overlay", ovFile, "-o", bin}
+	if race {
+		buildArgs = append(buildArgs, "-race")
+	}
+	build := exec.Command("go", append(buildArgs, relPkgDir(pkgPath))...)
 	build.Dir = repoDir
 	build.Env = goEnv()
 	if out, err := build.CombinedOutput(); err != nil {
@@ -337,6 +431,41 @@ func nativeRun(pkgPath, pkgName string, funcs []string, cases []Case) ([]NativeR
 			return nil, string(out), jerr
 		}
 		return res, string(out), nil
+	}
+	if race {
+		// one process per attempt; a data race makes the test fail but the results are still written
+		var res []NativeResult
+		var all string
+		for i, c := range cases {
+			one := c
+			one.Repeat = 0
+			var r NativeResult
+			r.Harness = c.Harness
+			for attempt := 0; attempt < 4; attempt++ {
+				r1, o1, e1 := runBatch([]Case{one}, fmt.Sprintf("r%d_%d", i, attempt))
+				all += o1
+				if e1 == nil && len(r1) == 1 {
+					r = r1[0]
+				}
+				if k := strings.Index(o1, "WARNING: DATA RACE"); k >= 0 {
+					rep := o1[k:]
+					if len(rep) > 60000 {
+						rep = rep[:60000]
+					}
+					r.Race += rep
+					if attempt >= 1 {
+						break
+					}
+					continue
+				}
+				if strings.Contains(o1, "fatal error: concurrent map") {
+					r.Race = "fatal error: concurrent map access (the Go runtime's own check)"
+					break
+				}
+			}
+			res = append(res, r)
+		}
+		return res, all, nil
 	}
 	res, out, err := runBatch(cases, "")
 	if err == nil {
@@ -652,7 +781,7 @@ func cmdRun(args []string) int {
 		for _, lb := range labels {
 			vs := byLabel[lb]
 			for i := 0; i < len(vs) && i < 3; i++ {
-				cases = append(cases, Case{Harness: h.Fn, Nondets: vs[i].Nondets, Tier: tierN, Repeat: 12})
+				cases = append(cases, Case{Harness: h.Fn, Nondets: vs[i].Nondets, Tier: tierN, Repeat: 12, Race: vs[i].Kind == "race"})
 				refs = append(refs, ref{label: lb, v: &vs[i]})
 			}
 		}
@@ -703,7 +832,15 @@ func cmdRun(args []string) int {
 					}
 					if rf.v != nil {
 						ok := false
-						if rf.v.Kind == "panic" {
+						if rf.v.Kind == "race" {
+							rep := raceReportFor(r.Race, rf.label)
+							ok = rep != ""
+							if ok {
+								reproDetail[rf.label] = rf.v.Detail + " | confirmed by go test -race: " + strings.Join(strings.Fields(firstLines(rep, 14)), " ")
+							} else if r.Race != "" && *verbose {
+								fmt.Printf("  (go test -race reported races, but none in the function of %q)\n%s\n", rf.label, firstLines(r.Race, 40))
+							}
+						} else if rf.v.Kind == "panic" {
 							ok = r.Panic != ""
 							reproDetail[rf.label] = r.Panic
 						} else {
@@ -972,7 +1109,7 @@ func cmdReplay(args []string) int {
 	harnessPkgs[rf.Pkg] = true
 	ld := load([]string{rf.Pkg})
 	pkg := ld.pkgs[rf.Pkg]
-	res, out, err := nativeRun(rf.Pkg, pkg.Pkg.Name(), harnessFuncs(pkg), []Case{{Harness: rf.Violation.Harness, Nondets: rf.Violation.Nondets, Tier: rf.Tier, Repeat: 12}})
+	res, out, err := nativeRun(rf.Pkg, pkg.Pkg.Name(), harnessFuncs(pkg), []Case{{Harness: rf.Violation.Harness, Nondets: rf.Violation.Nondets, Tier: rf.Tier, Repeat: 12, Race: rf.Violation.Kind == "race"}})
 	if err != nil {
 		fmt.Println(out)
 		fatal("%v", err)
@@ -986,6 +1123,11 @@ func cmdReplay(args []string) int {
 	ok := false
 	if rf.Violation.Kind == "panic" {
 		ok = r.Panic != ""
+	}
+	if rf.Violation.Kind == "race" {
+		rep := raceReportFor(r.Race, rf.Violation.Label)
+		ok = rep != ""
+		fmt.Printf("  go test -race: %s\n", firstLines(rep, 30))
 	}
 	for _, f := range r.Failures {
 		if f == rf.Violation.Label {
